@@ -6,7 +6,7 @@ MIX = [("full", {}), ("extfull", {}), ("file", {}), ("extbound", {}), ("names", 
 RULE = ('every quiescent point of seeded histories over files of every size class: allocated set = reachable + reserved (no leak), reported free count = model count (exact on non-DIRCACHE flavours), refill after delete')
 def run(res):
     histprop.run(res, PID, MIX, {"C05", "MF"}, RULE, nquick=60, nthorough=1500)
-    # undelete (adf_salv.c, not modelled): decided on the real code by the probe of props/undel.py
+    # undelete (AdfModel/Salv.lean): the probe of props/undel.py decides on the real code, its histories tie the model
     if not res.violations:
         exe = vlib.build_harness("asan")
         found = undel.probe(res, exe, 12 if res.tier == "quick" else 200)
@@ -15,4 +15,6 @@ def run(res):
         if mine:
             o, m = mine[0]
             res.violation(f"C05: {m}", dict(kind="history", ops=o, complaint=m), True)
+        else:
+            undel.tie_report(res, exe, 12 if res.tier == "quick" else 120)
 replay = histprop.replay
